@@ -22,7 +22,7 @@ echo "|---|---|---|"
 } > $OUT
 for S in $SEEDS; do
   PID=${S%%-*}
-  D=seeded/$S
+  D=/verif/seeded/$S
   [ -f "$D/patch.diff" ] || continue
   git -C "$WT" checkout -q -- . ; git -C "$WT" clean -qfd -e .verif-out -e .verif-target >/dev/null
   rm -rf "$WT/.verif-out"
